@@ -8,7 +8,7 @@ VARIABLE b
 
 DFrozen == /\ ndg = 0 /\ ph = "idle" /\ att = 0 /\ e = 0 /\ inq = <<>> /\ q = 0
            /\ fault = [kind |-> "none", at |-> 0] /\ sent = <<>> /\ done = <<>>
-           /\ waited = 0
+           /\ waited = 0 /\ conf = DConfOf(DgScript("new", <<>>))
 LimNone  == {<<-1, 1>>}
 LimMixed == {<<-1, 1>>, <<0, 2>>, <<1, 1>>}
 LimTight == {<<-1, 1>>, <<0, 1>>}
